@@ -487,6 +487,17 @@ func TestC18(t *testing.T) {
 			}
 		}
 	}
+	// a dense window of days asked again in scrambled order (same oracle, different predecessor: a memo keyed on too
+	// little answers the previous question)
+	{
+		start := ref.JDN(2019, 1, 1) + ev.Shard*230
+		for _, perm := range ev.Shuffled(460, ev.Pick(2, 6), 18) {
+			for _, k := range perm {
+				yy, mm, dd := ref.FromJDN(start + k)
+				moments.Eval(momentCase{ref.DT{Y: yy, M: mm, D: dd, H: []int{9, 23, 0, 15}[k%4], Mi: 30}})
+			}
+		}
+	}
 	moments.Rapid(ev.Share(ev.Pick(16000, 320000)), func(t *rapid.T) momentCase {
 		m := gen.Moment(t)
 		switch rapid.IntRange(0, 4).Draw(t, "bias") {
